@@ -820,16 +820,26 @@ class Gen:
         return self.select()
 
 
+def safe_base_tokenize(sql: str):
+    """base-dialect tokens for the harness' own use (mutators, skeletons), under the step cap and the watchdog so that a
+    broken tokenizer cannot stall the harness; None when it fails"""
+    _, _, _, tokens, errors, *_ = sg()
+    MON.install()
+    old = (MON.t_steps, MON.t_cap)
+    MON.t_steps, MON.t_cap = 0, 50 * (len(sql) + 2)
+    try:
+        return with_watchdog(lambda: tokens.Tokenizer().tokenize(sql), 5.0)
+    except BaseException:  # noqa
+        return None
+    finally:
+        MON.t_steps, MON.t_cap = old
+
+
 def split_tokens(sql: str) -> list:
     """token texts of `sql` as seen by the base tokenizer (falls back to whitespace splitting)"""
-    _, _, _, tokens, errors, *_ = sg()
-    try:
-        toks = tokens.Tokenizer().tokenize(sql)
-        out = [sql[t.start: t.end + 1] for t in toks]
-        if out:
-            return out
-    except Exception:  # noqa
-        pass
+    toks = safe_base_tokenize(sql)
+    if toks:
+        return [sql[t.start: t.end + 1] for t in toks]
     return sql.split()
 
 
@@ -953,9 +963,8 @@ def dialect_keywords(dialect):
 def skeleton(sql: str) -> str:
     _, _, _, tokens, *_ = sg()
     TT = tokens.TokenType
-    try:
-        toks = tokens.Tokenizer().tokenize(sql)
-    except Exception:  # noqa
+    toks = safe_base_tokenize(sql)
+    if toks is None:
         return "raw:" + "".join(c if ord(c) < 128 and not c.isalnum() else ("w" if c.isalnum() else "u") for c in sql)[:80]
     out = []
     for t in toks:
@@ -1379,6 +1388,7 @@ def correspond_activations(chk: Check) -> list:
         MON.acts = []
         MON._tokens_by_id = {}
         MON.p_cap = 4000 * (len(toks) + 2)
+        MON.w_cap = 20000 * (len(toks) + 2)
         p = dd.parser(error_level=errors.ErrorLevel[lvl])
         outcome = "ok"
         try:
